@@ -38,7 +38,7 @@ NONTRIVIAL_RULE = {
 }
 
 ASSUMPTIONS = [
-    "generated histories respect the asserted preconditions of the library (DESIGN.md section 3): calls only on active machines, ids < N, no no-arg succeed()/fail() from the root head, no veto of a redirected request during activation (counted as excluded_activation_veto)",
+    "generated histories respect the asserted preconditions of the library (DESIGN.md section 3): calls only on active machines, ids < N, no no-arg succeed()/fail() from the root head",
     "configuration space sampled by a fixed zoo of 18 machine types (N 1..64, head/headless, automatic/manual, 10 payload types, L in {1,2,3,4,5,6,7,255}, capacities 1..254, 4 context kinds, 0..3 injections)",
     "search never establishes absence; counts below are what this run generated and executed",
 ]
